@@ -369,6 +369,7 @@ type inst struct {
 	// results are values: every BestSnapshot ever handed out, with its rendering at that time
 	snaps    []*blockchain.BestState
 	snapStrs []string
+	notes2   int // notifications seen by a second, independent subscriber
 }
 
 func renderSnap(b *blockchain.BestState) string {
@@ -387,6 +388,12 @@ func (in *inst) subscribe() {
 			in.notes = append(in.notes, "+"+strconv.Itoa(id))
 		case blockchain.NTBlockDisconnected:
 			in.notes = append(in.notes, "-"+strconv.Itoa(id))
+		}
+	})
+	// every subscriber sees the same stream
+	in.chain.Subscribe(func(n *blockchain.Notification) {
+		if n.Type == blockchain.NTBlockConnected || n.Type == blockchain.NTBlockDisconnected {
+			in.notes2++
 		}
 	})
 }
@@ -776,6 +783,13 @@ func (in *inst) observe(res string, ids []int) string {
 		fmt.Fprintf(&sb, "%d:%d:%d:%s", in.f.idOf[t.BlockHash], t.Height, t.BranchLen, c)
 	}
 	sb.WriteByte('/')
+	if len(in.notes) != in.notes2 {
+		sb.WriteString("!sub2")
+	}
+	in.notes2 = 0
+	if in.chain.IsCurrent() {
+		sb.WriteString("!current") // tips dated 2012 are never "current"
+	}
 	if len(in.notes) == 0 {
 		sb.WriteByte('=')
 	}
